@@ -693,7 +693,7 @@ class ClientTls(Client):
                                 errno.EHOSTDOWN,
                                 errno.ETIMEDOUT,
                                 errno.ECONNREFUSED,
-                                ssl.SSLEOFError):
+                                ssl.SSL_ERROR_EOF):
 
                 self.cutoff = True  # this signals need to close/reopen connection
                 return bytes()  # data empty
@@ -733,7 +733,7 @@ class ClientTls(Client):
                                 errno.EHOSTDOWN,
                                 errno.ETIMEDOUT,
                                 errno.ECONNREFUSED,
-                                ssl.SSLEOFError):
+                                ssl.SSL_ERROR_EOF):
 
                 self.cutoff = True  # this signals need to close/reopen connection
                 result = 0
